@@ -913,6 +913,12 @@ _dispatch_timer_unote_resume(dispatch_timer_source_refs_t dt)
 		if (!was_armed) _dispatch_retain_unote_owner(dt);
 		_dispatch_timer_unote_arm(dt, dth, tidx);
 	} else if (was_armed) {
+		// The timer was taken out of the heap, possibly because its source is
+		// suspended. A dispatch_resume() racing with this can have looked at
+		// the unote while it was still armed and concluded that there is
+		// nothing to do: redo that evaluation now that it is disarmed, or the
+		// timer would never be armed again.
+		dx_wakeup(_dispatch_source_from_refs(dt), 0, DISPATCH_WAKEUP_MAKE_DIRTY);
 		_dispatch_release_unote_owner_tailcall(dt);
 	}
 }
